@@ -8,6 +8,7 @@ import HappyProofs.C16.OrderLaws
 import HappyProofs.C16.TierProps
 import HappyProofs.C16.PageProps
 import HappyProofs.C16.WPolProps
+import HappyProofs.C16.ClearFresh
 /-!
 # C16 — property theorems
 
@@ -74,6 +75,30 @@ theorem policy_evict_returns_held_key (name : String) (arg : Nat) (p0 : Pol)
 example :
     let ops := [POp.insert 0 0, .insert 1 0, .access 0, .evict 0 [], .insert 2 0]
     (runBoth (.lru {}) {} ops).2.wf = true ∧ (runBoth (.lru {}) {} ops).1.tracked = [0, 2] := by decide
+
+/-- `clear()` — what `invalidate_all()` calls — leaves any of the nine policies exactly as new:
+    whatever was called before it (well formed or not, any clock readings, any draws), the calls
+    after it take the policy through the same states, and hence return the same keys and track the
+    same keys, as they would on a freshly constructed policy.  No reference bit, frequency, segment
+    membership, ghost entry or insertion reading survives a clear. -/
+theorem policy_clear_is_fresh (name : String) (arg : Nat) (p0 : Pol)
+    (h0 : Pol.ofName name arg = some p0) (before after : List POp) :
+    Pol.run p0 (before ++ POp.clear :: after) = Pol.run p0 after ∧
+      ∀ now pick, (Pol.run p0 (before ++ POp.clear :: after)).evict now pick =
+        (Pol.run p0 after).evict now pick := by
+  have h : Pol.run p0 (before ++ POp.clear :: after) = Pol.run p0 after := by
+    rw [Pol.run_append]
+    simp only [Pol.run, Pol.step]
+    rw [Pol.run_clear, Pol.ofName_clear name arg p0 h0]
+  exact ⟨h, fun now pick => by rw [h]⟩
+
+/-- non-vacuity: a Clock policy whose keys had their reference bits set, cleared, the same keys
+    re-inserted and a third one on top: all three are tracked again and the hand starts over -/
+example :
+    let before := [POp.insert 0 0, .insert 1 0, .access 0, .evict 0 []]
+    let after := [POp.insert 0 0, .insert 1 0, .insert 2 0]
+    (Pol.run (.clock {}) (before ++ POp.clear :: after)).tracked = [0, 1, 2] ∧
+      ((Pol.run (.clock {}) (before ++ POp.clear :: after)).evict 0 []).1 = some 0 := by decide
 
 /-! ### order laws (statements and proofs in `OrderLaws.lean`)
 
